@@ -1,6 +1,6 @@
 (* C15/Proofs3.v -- part 3: sortedness bridge, _index_of / _unique, and the pair-count theorem for
    correlograms() with the caller's cluster list. *)
-From Coq Require Import ZArith List Lia Bool Arith Permutation QArith Qround.
+From Coq Require Import ZArith List Lia Bool Arith Permutation QArith Qround Sorted.
 From PV Require Import Base.NpList Base.NpSearch C15.Model C15.Spec C15.Proofs C15.Proofs2.
 Import ListNotations.
 Open Scope Z_scope.
@@ -185,9 +185,6 @@ Proof.
 Qed.
 
 (* ================= correlograms with the caller's cluster list ================= *)
-Definition ids_ok (labels ids : list Z) : Prop :=
-  NoDup ids /\ (forall x, In x ids -> 0 <= x) /\ (forall x, In x labels -> In x ids).
-
 Lemma nth_map_tab ids labels a : (a < length labels)%nat ->
   nth a (map (tab ids) labels) 0 = tab ids (nth a labels (-1)).
 Proof.
@@ -234,4 +231,254 @@ Proof.
   destruct (ccg_core_spec t labels ids (binsize_of rate bin) (half_of bin win) Hs Hlen (conj Hnd (conj Hnn Hsub)) Hbs
               (half_of_nonneg bin win)) as (C & -> & HC).
   exists C. split; [reflexivity|exact HC].
+Qed.
+
+(* ================= the default cluster list: _unique ================= *)
+Lemma zrange_NoDup a k : NoDup (zrange a k).
+Proof.
+  revert a; induction k as [|k IH]; intros a; cbn [zrange]; constructor; [|apply IH].
+  intros H. apply zrange_ge in H. lia.
+Qed.
+
+Lemma zrange_sorted a k : StronglySorted Z.lt (zrange a k).
+Proof.
+  revert a; induction k as [|k IH]; intros a; cbn [zrange]; constructor; [apply IH|].
+  apply Forall_forall. intros x H. apply zrange_ge in H. lia.
+Qed.
+
+Lemma filter_sorted (p : Z -> bool) l : StronglySorted Z.lt l -> StronglySorted Z.lt (filter p l).
+Proof.
+  induction 1 as [|x l Hs IH Hx]; cbn [filter]; [constructor|].
+  destruct (p x); [|exact IH]. constructor; [exact IH|].
+  apply Forall_forall. intros y Hy. apply filter_In in Hy as [Hy _].
+  rewrite Forall_forall in Hx. now apply Hx.
+Qed.
+
+Lemma unique_in x c : In c (unique x) <-> 0 <= c /\ In c x.
+Proof.
+  unfold unique. set (x' := filter (fun v => 0 <=? v) x). rewrite filter_In. split.
+  - intros [_ H]. apply existsb_exists in H as (y & Hy & E). apply Z.eqb_eq in E. subst y.
+    apply filter_In in Hy as [Hy Hc]. split; [lia|exact Hy].
+  - intros [Hc Hin]. assert (Hin' : In c x') by (apply filter_In; split; [exact Hin|lia]). split.
+    + apply zrange_in. pose proof (zmax_ge x' c Hin'). pose proof (zmax_nonneg x'). lia.
+    + apply existsb_exists. exists c. split; [exact Hin'|apply Z.eqb_refl].
+Qed.
+
+Lemma unique_sorted x : StronglySorted Z.lt (unique x).
+Proof. unfold unique. apply filter_sorted, zrange_sorted. Qed.
+
+Lemma unique_ids_ok labels : (forall x, In x labels -> 0 <= x) -> ids_ok labels (unique labels).
+Proof.
+  intros Hnn. split; [unfold unique; apply NoDup_filter, zrange_NoDup|]. split.
+  - intros x H. now apply unique_in in H.
+  - intros x H. apply unique_in. split; [now apply Hnn|exact H].
+Qed.
+
+(* ================= order of the clusters, ids without spikes ================= *)
+Lemma pair_count_absent t bs labels x y k : length labels = length t ->
+  ~ In x labels \/ ~ In y labels -> pair_count t bs labels x y k = 0.
+Proof.
+  intros Hlen Habs. unfold pair_count. rewrite filter_nil; [reflexivity|].
+  intros [a b] Hab. apply in_all_pairs in Hab. cbn [fst snd].
+  destruct (nth a labels (-1) =? x) eqn:E1; [|reflexivity].
+  destruct (nth b labels (-1) =? y) eqn:E2; [|reflexivity].
+  exfalso. apply Z.eqb_eq in E1, E2. destruct Habs as [H|H]; apply H; [rewrite <- E1|rewrite <- E2]; apply nth_In; lia.
+Qed.
+
+(* ================= _symmetrize_correlograms ================= *)
+Lemma shape_cell n1 n2 n3 C i j : Shape n1 n2 n3 C -> (i < n1)%nat -> (j < n2)%nat -> length (cell C i j) = n3.
+Proof.
+  intros [H1 H2] Hi Hj. unfold cell. rewrite Forall_forall in H2.
+  destruct (H2 (nth i C [])) as [Hr Hc]; [apply nth_In; lia|].
+  rewrite Forall_forall in Hc. apply Hc. apply nth_In. lia.
+Qed.
+
+Lemma nth_cons_tl (L : list Z) x k : L <> [] -> (1 <= k)%nat -> nth k (x :: tl L) 0 = nth k L 0.
+Proof. intros HL Hk. destruct L as [|c r]; [congruence|]. destruct k; [lia|reflexivity]. Qed.
+
+Lemma sym_centre_unfold C i j w : length (cell C i j) = S w -> length (cell C j i) = S w ->
+  sym_centre C i j = Z.max (nth 0 (cell C i j) 0) (nth 0 (cell C j i) 0) :: tl (cell C i j).
+Proof.
+  intros H1 H2. unfold sym_centre. destruct (cell C i j) as [|c0 r]; [discriminate|].
+  destruct (cell C j i) as [|c0' r']; [discriminate|]. reflexivity.
+Qed.
+
+Lemma symmetrize_spec nc w C : Shape nc nc (S w) C ->
+  exists S', symmetrize C = Some S' /\ Sym_Spec nc w C S'.
+Proof.
+  intros HS. pose proof HS as [Hlen Hrows]. unfold symmetrize. rewrite Hlen.
+  replace (forallb (fun row => Nat.eqb (length row) nc) C) with true.
+  2:{ symmetry. apply forallb_forall. intros row Hr. rewrite Forall_forall in Hrows. apply Nat.eqb_eq. now apply Hrows. }
+  eexists. split; [reflexivity|].
+  set (S' := map _ (seq 0 nc)).
+  assert (Hcell : forall i j, (i < nc)%nat -> (j < nc)%nat ->
+            cell S' i j = rev (tl (cell C j i)) ++ Z.max (nth 0 (cell C i j) 0) (nth 0 (cell C j i) 0) :: tl (cell C i j)).
+  { intros i j Hi Hj. unfold cell, S'. rewrite (nth_map_seq _ nc i []) by exact Hi.
+    rewrite (nth_map_seq _ nc j []) by exact Hj.
+    pose proof (shape_cell _ _ _ C i j HS Hi Hj) as L1. pose proof (shape_cell _ _ _ C j i HS Hj Hi) as L2.
+    rewrite (sym_centre_unfold C j i w L2 L1), (sym_centre_unfold C i j w L1 L2). reflexivity. }
+  assert (Hthree : forall i j, (i < nc)%nat -> (j < nc)%nat ->
+    (forall k, (1 <= k <= w)%nat -> nth (w + k) (cell S' i j) 0 = nth k (cell C i j) 0) /\
+    (forall k, (1 <= k <= w)%nat -> nth (w - k) (cell S' i j) 0 = nth k (cell C j i) 0) /\
+    nth w (cell S' i j) 0 = Z.max (nth 0 (cell C i j) 0) (nth 0 (cell C j i) 0)).
+  { intros i j Hi Hj. rewrite (Hcell i j Hi Hj).
+    pose proof (shape_cell _ _ _ C i j HS Hi Hj) as L1. pose proof (shape_cell _ _ _ C j i HS Hj Hi) as L2.
+    assert (Lt : length (tl (cell C j i)) = w) by (destruct (cell C j i); cbn in *; [discriminate|lia]).
+    assert (Lr : length (rev (tl (cell C j i))) = w) by (now rewrite rev_length).
+    assert (N1 : cell C i j <> []) by (intros E; rewrite E in L1; discriminate).
+    assert (N2 : cell C j i <> []) by (intros E; rewrite E in L2; discriminate).
+    split; [|split].
+    - intros k Hk. rewrite app_nth2 by lia. rewrite Lr. replace (w + k - w)%nat with k by lia.
+      apply nth_cons_tl; [exact N1|lia].
+    - intros k Hk. rewrite app_nth1 by lia. rewrite rev_nth by lia. rewrite Lt.
+      replace (w - S (w - k))%nat with (k - 1)%nat by lia.
+      rewrite <- (nth_cons_tl (cell C j i) 0 k N2) by lia.
+      destruct k; [lia|]. cbn [nth]. now replace (S k - 1)%nat with k by lia.
+    - rewrite app_nth2 by lia. rewrite Lr, Nat.sub_diag. reflexivity. }
+  split.
+  - split; [unfold S'; now rewrite map_length, seq_length|].
+    apply Forall_forall. intros row Hr. unfold S' in Hr. apply in_map_iff in Hr as (i & <- & Hi). apply in_seq in Hi.
+    split; [now rewrite map_length, seq_length|].
+    apply Forall_forall. intros c Hc. apply in_map_iff in Hc as (j & <- & Hj). apply in_seq in Hj.
+    pose proof (shape_cell _ _ _ C i j HS ltac:(lia) ltac:(lia)) as L1.
+    pose proof (shape_cell _ _ _ C j i HS ltac:(lia) ltac:(lia)) as L2.
+    rewrite (sym_centre_unfold C j i w L2 L1), (sym_centre_unfold C i j w L1 L2).
+    rewrite app_length, rev_length. cbn [length].
+    destruct (cell C j i); destruct (cell C i j); cbn in *; try discriminate. lia.
+  - intros i j Hi Hj. destruct (Hthree i j Hi Hj) as (P1 & P2 & P3). destruct (Hthree j i Hj Hi) as (Q1 & Q2 & Q3).
+    split; [exact P1|]. split; [exact P2|]. split; [exact P3|].
+    intros k Hk. destruct (Nat.lt_trichotomy k w) as [Hlt|[->|Hgt]].
+    + replace k with (w - (w - k))%nat at 1 by lia. rewrite P2 by lia.
+      replace (2 * w - k)%nat with (w + (w - k))%nat by lia. now rewrite Q1 by lia.
+    + replace (2 * w - w)%nat with w by lia. rewrite P3, Q3. apply Z.max_comm.
+    + replace k with (w + (k - w))%nat at 1 by lia. rewrite P1 by lia.
+      replace (2 * w - k)%nat with (w - (k - w))%nat by lia. now rewrite Q2 by lia.
+Qed.
+
+Lemma correlograms_sym t labels ids rate bin win :
+  (0 < rate)%Q -> sortedZ t -> length labels = length t -> ids_ok labels ids -> 1 <= binsize_of rate bin ->
+  exists C S', correlograms t labels (Some ids) rate bin win false = Some C /\
+               correlograms t labels (Some ids) rate bin win true = Some S' /\
+               OneSided_Spec t labels ids (binsize_of rate bin) (half_of bin win) C /\
+               Sym_Spec (length ids) (Z.to_nat (half_of bin win)) C S'.
+Proof.
+  intros Hr Hs Hlen Hok Hbs.
+  destruct (correlograms_onesided t labels ids rate bin win Hr Hs Hlen Hok Hbs) as (C & HC & Hspec).
+  pose proof (half_of_nonneg bin win) as HW.
+  assert (HS : Shape (length ids) (length ids) (S (Z.to_nat (half_of bin win))) C).
+  { destruct Hspec as [H _]. now rewrite Z2Nat.inj_add, Nat.add_1_r in H by lia. }
+  destruct (symmetrize_spec _ _ C HS) as (S' & HS' & Hsym).
+  exists C, S'. split; [exact HC|]. split; [|split; [exact Hspec|exact Hsym]].
+  revert HC. unfold correlograms.
+  destruct (Qle_bool rate 0); [discriminate|]. destruct (negb (sortedZb t)); [discriminate|].
+  destruct (negb (Nat.eqb (length t) (length labels))); [discriminate|].
+  destruct (binsize_of rate bin <? 1); [discriminate|].
+  destruct (index_of_chk labels (clusters_of labels (Some ids))) as [ci|]; [|discriminate].
+  destruct (ccg_core t ci _ _ _) as [C0|]; [|discriminate].
+  intros H. injection H as ->. exact HS'.
+Qed.
+
+(* ================= firing_rate ================= *)
+Lemma nth_map' {X Y} (f : X -> Y) l i dx dy : (i < length l)%nat -> nth i (map f l) dy = f (nth i l dx).
+Proof. intros H. rewrite (nth_indep _ dy (f dx)) by (now rewrite map_length). apply map_nth. Qed.
+
+Lemma nth_app_zeros (l : list Z) m i : nth i (l ++ repeat 0 m) 0 = nth i l 0.
+Proof.
+  destruct (Nat.lt_ge_cases i (length l)) as [H|H]; [now apply app_nth1|].
+  rewrite app_nth2 by exact H. rewrite (nth_overflow l) by exact H.
+  generalize (i - length l)%nat. clear. induction m as [|m IH]; intros [|k]; cbn; auto.
+Qed.
+
+Lemma count_tab ids labels i : NoDup ids -> (forall x, In x ids -> 0 <= x) -> (forall x, In x labels -> In x ids) ->
+  (i < length ids)%nat ->
+  count_occ Z.eq_dec (map (tab ids) labels) (Z.of_nat i) = count_occ Z.eq_dec labels (nth i ids (-1)).
+Proof.
+  intros Hnd Hnn Hsub Hi. rewrite !count_occ_filter, filter_map_comm, map_length. f_equal.
+  apply filter_ext_in. intros x Hx. apply tab_eqb; auto.
+Qed.
+
+Lemma firing_rate_spec labels ids bin dur : ids_ok labels ids -> (0 < bin)%Q ->
+  exists R, firing_rate labels (Some ids) bin dur = Some R /\ Rate_Spec labels ids bin (eff_dur dur) R.
+Proof.
+  intros (Hnd & Hnn & Hsub) Hbin. unfold firing_rate. cbn [clusters_of].
+  rewrite (index_of_chk_map ids Hnn labels Hsub).
+  replace (Qle_bool bin 0) with false.
+  2:{ symmetry. apply not_true_is_false. rewrite Qle_bool_iff. apply Qlt_not_le. exact Hbin. }
+  set (ci := map (tab ids) labels).
+  assert (Hci : Forall (fun x => 0 <= x < zlen ids) ci).
+  { apply Forall_forall. intros y Hy. apply in_map_iff in Hy as (x & <- & Hx). apply tab_range; auto. }
+  replace (existsb (fun x => x <? 0) ci) with false.
+  2:{ symmetry. apply not_true_is_false. intros H. apply existsb_exists in H as (y & Hy & E).
+      rewrite Forall_forall in Hci. specialize (Hci y Hy). lia. }
+  pose proof (bincount_length ci (zlen ids) ltac:(unfold zlen; lia) Hci) as Hbl.
+  unfold zlen in Hbl. rewrite Nat2Z.id in Hbl.
+  set (bc := bincount ci ++ repeat 0 (length ids - length (bincount ci))).
+  assert (Hlen : length bc = length ids) by (unfold bc; rewrite app_length, repeat_length; lia).
+  replace (Nat.eqb (length bc) (length ids)) with true by (symmetry; apply Nat.eqb_eq; exact Hlen).
+  cbn [negb]. eexists. split; [reflexivity|].
+  assert (Hbc : forall i, (i < length ids)%nat -> nth i bc 0 = n_spikes labels (nth i ids (-1))).
+  { intros i Hi. unfold bc. rewrite nth_app_zeros, bincount_nth.
+    - unfold n_spikes, ci. now rewrite count_tab.
+    - eapply Forall_impl; [|exact Hci]. cbn. intros; lia. }
+  split; [now rewrite map_length|]. split.
+  - apply Forall_forall. intros row Hr. apply in_map_iff in Hr as (bi & <- & _). now rewrite map_length.
+  - intros i j Hi Hj. rewrite (nth_map' _ bc i 0 []) by lia. rewrite (nth_map' _ bc j 0 0%Q) by lia.
+    rewrite !Hbc by assumption. rewrite Z.mul_comm. reflexivity.
+Qed.
+
+Lemma rate_empty labels ids bin d R i j : Rate_Spec labels ids bin d R ->
+  (i < length ids)%nat -> (j < length ids)%nat ->
+  ~ In (nth i ids (-1)) labels \/ ~ In (nth j ids (-1)) labels -> (nth j (nth i R []) 0 == 0)%Q.
+Proof.
+  intros (_ & _ & H) Hi Hj Habs. rewrite (H i j Hi Hj).
+  assert (n_spikes labels (nth i ids (-1)) * n_spikes labels (nth j ids (-1)) = 0) as ->.
+  { unfold n_spikes. destruct Habs as [Ha|Ha]; apply (count_occ_not_In Z.eq_dec) in Ha; rewrite Ha; lia. }
+  apply Qmult_0_l.
+Qed.
+
+Lemma onesided_absent t labels ids bs W C i j k : length labels = length t ->
+  OneSided_Spec t labels ids bs W C -> (i < length ids)%nat -> (j < length ids)%nat -> Z.of_nat k <= W ->
+  ~ In (nth i ids (-1)) labels \/ ~ In (nth j ids (-1)) labels -> nth k (cell C i j) 0 = 0.
+Proof. intros Hlen [_ H] Hi Hj Hk Habs. rewrite H by assumption. now apply pair_count_absent. Qed.
+
+Lemma correlograms_order t labels ids ids' rate bin win C C' :
+  (0 < rate)%Q -> sortedZ t -> length labels = length t -> ids_ok labels ids -> ids_ok labels ids' ->
+  1 <= binsize_of rate bin ->
+  correlograms t labels (Some ids) rate bin win false = Some C ->
+  correlograms t labels (Some ids') rate bin win false = Some C' ->
+  forall i j i' j' k, (i < length ids)%nat -> (j < length ids)%nat -> (i' < length ids')%nat -> (j' < length ids')%nat ->
+    nth i ids (-1) = nth i' ids' (-1) -> nth j ids (-1) = nth j' ids' (-1) -> Z.of_nat k <= half_of bin win ->
+    nth k (cell C i j) 0 = nth k (cell C' i' j') 0.
+Proof.
+  intros Hr Hs Hlen Hok Hok' Hbs HC HC' i j i' j' k Hi Hj Hi' Hj' Ei Ej Hk.
+  destruct (correlograms_onesided t labels ids rate bin win Hr Hs Hlen Hok Hbs) as (C0 & E0 & [_ H0]).
+  destruct (correlograms_onesided t labels ids' rate bin win Hr Hs Hlen Hok' Hbs) as (C1 & E1 & [_ H1]).
+  rewrite HC in E0. injection E0 as <-. rewrite HC' in E1. injection E1 as <-.
+  rewrite H0, H1 by assumption. now rewrite Ei, Ej.
+Qed.
+
+Lemma correlograms_absent t labels ids rate bin win C :
+  (0 < rate)%Q -> sortedZ t -> length labels = length t -> ids_ok labels ids -> 1 <= binsize_of rate bin ->
+  correlograms t labels (Some ids) rate bin win false = Some C ->
+  forall i j k, (i < length ids)%nat -> (j < length ids)%nat -> Z.of_nat k <= half_of bin win ->
+    ~ In (nth i ids (-1)) labels \/ ~ In (nth j ids (-1)) labels -> nth k (cell C i j) 0 = 0.
+Proof.
+  intros Hr Hs Hlen Hok Hbs HC i j k Hi Hj Hk Habs.
+  destruct (correlograms_onesided t labels ids rate bin win Hr Hs Hlen Hok Hbs) as (C0 & E0 & H0).
+  rewrite HC in E0. injection E0 as <-. eapply onesided_absent; eassumption.
+Qed.
+
+Lemma correlograms_unsorted t labels ids rate bin win symm : ~ sortedZ t -> correlograms t labels ids rate bin win symm = None.
+Proof.
+  intros H. unfold correlograms. destruct (Qle_bool rate 0); [reflexivity|].
+  replace (sortedZb t) with false; [reflexivity|].
+  symmetry. apply not_true_is_false. now rewrite sortedZb_spec.
+Qed.
+
+Lemma default_ids labels : (forall x, In x labels -> 0 <= x) ->
+  ids_ok labels (unique labels) /\ StronglySorted Z.lt (unique labels) /\
+  (forall c, In c (unique labels) <-> In c labels).
+Proof.
+  intros Hnn. split; [now apply unique_ids_ok|]. split; [apply unique_sorted|].
+  intros c. rewrite unique_in. split; [tauto|]. intros H. split; [now apply Hnn|exact H].
 Qed.
